@@ -93,6 +93,28 @@ impl Proj for Decibels {
 	}
 }
 
+/// decibel values around and below the -60 dB "silence" mark (which is a fact about amplitudes, not about tweens)
+#[derive(Clone, Copy, PartialEq)]
+struct LowDb(Decibels);
+impl Tweenable for LowDb {
+	fn interpolate(a: Self, b: Self, amount: f64) -> Self {
+		LowDb(Decibels::interpolate(a.0, b.0, amount))
+	}
+}
+impl Proj for LowDb {
+	const UNIT: f64 = 8.0;
+	const OFF: f64 = -70.0;
+	fn make(c: f64) -> Self {
+		LowDb(Decibels(c as f32))
+	}
+	fn get(self) -> f64 {
+		self.0 .0 as f64
+	}
+	fn same(a: Self, b: Self) -> bool {
+		a == b
+	}
+}
+
 impl Proj for Panning {
 	// legal range -1..1
 	const UNIT: f64 = 0.5;
@@ -393,6 +415,7 @@ fn main() {
 			"dur" => run::<Duration>(&sc, &mut tr),
 			"cspeed" => run::<ClockSpeed>(&sc, &mut tr),
 			"vec3" => run::<Vec3>(&sc, &mut tr),
+			"db_low" => run::<LowDb>(&sc, &mut tr),
 			"cspeed_s" => run::<SpeedToSpt>(&sc, &mut tr),
 			"cspeed_m" => run::<SpeedToTpm>(&sc, &mut tr),
 			other => panic!("unknown type {other}"),
